@@ -15,7 +15,12 @@ Inductive c13case :=
 | C13 (lim d : Z) (hist : list (Z * Z)) (dec : list bool) (trk : list (list Z))
       (solo : list (Z * list bool)) (dup dupr : list bool)
 (* a burst: n attempts of one key at one instant on a fresh limiter, `admitted` of them admitted *)
-| SAT (lim d n admitted : Z).
+| SAT (lim d n admitted : Z)
+(* a crowd: one attempt each of `nkeys` distinct keys at one instant (all must be admitted), then
+   `attempts` attempts of one further key at the same instant, `admitted` of them admitted; the
+   crowd is too large to run through the model case by case - by C13_independent the further
+   key's decisions are those of a fresh one-key limiter, which the model does run *)
+| FLOOD (lim d nkeys crowd_admitted attempts admitted : Z).
 
 Definition corr (b : bool) : Z := if b then 0 else 1.
 Definition moni (b : bool) : Z := if b then 0 else 2.
@@ -179,6 +184,11 @@ Definition check_c13 (x : c13case) : Z :=
        else 0)
       (* all attempts fall into one window: at most `lim` may pass *)
       + moni (admitted <=? lim)
+  | FLOOD lim d nkeys crowd_admitted attempts admitted =>
+      let c := Cfg lim d in
+      if negb (cfg_ok c && (1 <=? lim) && (0 <=? attempts) && (attempts <=? 2000)) then 4 else
+      corr (Z.of_nat (length (filter (fun b => b) (key_run c None (repeat 0 (Z.to_nat attempts))))) =? admitted)
+      + moni ((admitted <=? lim) && (crowd_admitted =? nkeys))
   end.
 
 (* the example of Limiter.v as a case *)
